@@ -1538,30 +1538,36 @@ func (v *VM) execute(ctx *Context, op opcode.Opcode, parameter []byte) (err erro
 			if k < 0 || k >= len(a) {
 				panic("REMOVE: invalid index")
 			}
-			if t.IsReferenced() {
-				v.refs.Remove(a[k])
-			}
+			// Detach the element first, it can reference the container itself.
+			removed := a[k]
 			t.Remove(k)
+			if t.IsReferenced() {
+				v.refs.Remove(removed)
+			}
 		case *stackitem.Struct:
 			a := t.Value().([]stackitem.Item)
 			k := toInt(key.BigInt())
 			if k < 0 || k >= len(a) {
 				panic("REMOVE: invalid index")
 			}
-			if t.IsReferenced() {
-				v.refs.Remove(a[k])
-			}
+			// Detach the element first, it can reference the container itself.
+			removed := a[k]
 			t.Remove(k)
+			if t.IsReferenced() {
+				v.refs.Remove(removed)
+			}
 		case *stackitem.Map:
 			index := t.Index(key.Item())
 			// No error on missing key.
 			if index >= 0 {
-				if t.IsReferenced() {
-					elems := t.Value().([]stackitem.MapElement)
-					v.refs.Remove(elems[index].Key)
-					v.refs.Remove(elems[index].Value)
-				}
+				// Detach the entry first, its value can reference the map itself
+				// and releasing the map releases the entries it still has.
+				removed := t.Value().([]stackitem.MapElement)[index]
 				t.Drop(index)
+				if t.IsReferenced() {
+					v.refs.Remove(removed.Key)
+					v.refs.Remove(removed.Value)
+				}
 			}
 		default:
 			panic("REMOVE: invalid type")
